@@ -104,12 +104,70 @@ VARIANTS = [
 
 
 def _sources(src_dir: str, v: dict) -> Optional[dict]:
-    path = os.path.join(src_dir, v["module"] + ".py")
-    with open(path, encoding="utf-8") as fh:
-        text = fh.read()
-    if text.count(v["old"]) != 1:
-        return None
-    return {v["module"]: text.replace(v["old"], v["new"])}
+    edits = v.get("edits") or [(v["module"], v["old"], v["new"])]
+    out: Dict[str, str] = {}
+    for module, old, new in edits:
+        if module not in out:
+            with open(os.path.join(src_dir, module + ".py"), encoding="utf-8") as fh:
+                out[module] = fh.read()
+        if out[module].count(old) != 1:
+            return None
+        out[module] = out[module].replace(old, new)
+    return out
+
+
+def _hunks(diff_text: str):
+    """(module, old block, new block) for every hunk of a unified diff (context lines included in both)"""
+    out = []
+    module = None
+    old: List[str] = []
+    new: List[str] = []
+
+    def flush():
+        if module and (old or new) and old != new:
+            out.append((module, "".join(old), "".join(new)))
+
+    for line in diff_text.splitlines(keepends=True):
+        if line.startswith("+++ "):
+            flush()
+            old, new = [], []
+            path = line[4:].strip()
+            module = os.path.splitext(os.path.basename(path))[0] if path.endswith(".py") else None
+        elif line.startswith(("diff --git", "index ", "--- ")):
+            continue
+        elif line.startswith("@@"):
+            flush()
+            old, new = [], []
+        elif line.startswith("-"):
+            old.append(line[1:])
+        elif line.startswith("+"):
+            new.append(line[1:])
+        elif line.startswith(" "):
+            old.append(line[1:])
+            new.append(line[1:])
+    flush()
+    return out
+
+
+def seeded_variants() -> List[dict]:
+    """the independently seeded changes kept under /verif/seeded (those a check is expected to report)"""
+    import json
+
+    base = os.path.join(os.path.dirname(os.path.dirname(os.path.abspath(__file__))), "seeded")
+    out = []
+    if not os.path.isdir(base):
+        return out
+    for d in sorted(os.listdir(base)):
+        mp, pp = os.path.join(base, d, "meta.json"), os.path.join(base, d, "patch.diff")
+        if not (os.path.exists(mp) and os.path.exists(pp)):
+            continue
+        meta = json.load(open(mp))
+        if not meta.get("detected_by_checks"):
+            continue
+        edits = _hunks(open(pp).read())
+        exp = meta["expected_report"]
+        out.append(dict(id="seeded-" + d, props=meta["detected_by_checks"], module=edits[0][0] if edits else "?", edits=edits, rule=exp["rule"], func=exp["function_contains"], what="independently seeded: " + meta["needs_to_manifest"][:140], twin=False))
+    return out
 
 
 def _eval(args) -> dict:
@@ -126,7 +184,8 @@ def _eval(args) -> dict:
 
         with warnings.catch_warnings():
             warnings.simplefilter("ignore")
-            _ast.parse(srcs[v["module"]])
+            for _m, _t in srcs.items():
+                _ast.parse(_t)
         mod = importlib.import_module(f"nv.rules.{prop.lower()}")
         m = model.load(src_dir, sources=srcs, need=getattr(mod, "NEED", ("generic",)), cache=False)
         chk = Check(prop, "thorough")
@@ -149,7 +208,7 @@ def _eval(args) -> dict:
 
 
 def run(prop: str, chk: Check, src_dir: str = REPO_SRC, jobs: int = 16):
-    mine = [v for v in VARIANTS if prop in v["props"]]
+    mine = [v for v in VARIANTS + seeded_variants() if prop in v["props"]]
     base_keys = [list(f.key()) for f in chk.findings]
     results = []
     if mine:
